@@ -6,7 +6,12 @@
 // operator is printed as the application of one Lean primitive.  On any construct
 // outside the subset it refuses (exit 2), so it can never silently mistranslate.
 //
-// usage: go2lean -repo /repo -out <dir>
+// A second, "typed" mode (typed.go, typed_main.go; its subset is documented at the top of typed.go)
+// prints Go `int`/`uint64` code with general `for` loops (fuel-bounded `loopWhile`), early return in
+// loops, receiver getters as explicit parameters and the per-modulus bodies of ring/scalar.go:
+// Gen/Galois.lean (property C11) and Gen/Scalar.lean (property C15).
+//
+// usage: go2lean -repo /repo -out <dir>      |      go2lean -selftest file.go   (typed mode, to stdout)
 package main
 
 import (
@@ -1481,7 +1486,12 @@ const header = "-- GENERATED by tools/go2lean from %s — do not edit; regenerat
 func main() {
 	repo := flag.String("repo", "/repo", "repository root")
 	out := flag.String("out", "", "output directory")
+	selftest := flag.String("selftest", "", "print every top-level function of this Go file in typed mode to stdout (debugging aid)")
 	flag.Parse()
+	if *selftest != "" {
+		runSelftest(*selftest)
+		return
+	}
 	if *out == "" {
 		fmt.Fprintln(os.Stderr, "need -out")
 		os.Exit(2)
@@ -1632,9 +1642,12 @@ func main() {
 	summary["automorphism_sha256"] = hash(auPath)
 	summary["utils_sha256"] = hash(utPath)
 
+	// 6./7. typed mode (typed.go, typed_main.go): Gen/Galois.lean and Gen/Scalar.lean
+	ng, ns := typedFiles(*repo, *out, mr, summary, hash)
+
 	b, _ := json.MarshalIndent(summary, "", " ")
 	must(os.WriteFile(filepath.Join(*out, "gen_summary.json"), b, 0o644))
-	fmt.Printf("go2lean: %d scalar functions, 2 butterflies, %d kernels, %d SubRing wrappers (+%d NTT delegations), AutomorphismNTTIndex\n", len(names), len(metas), len(wmetas), len(delegates))
+	fmt.Printf("go2lean: %d scalar functions, 2 butterflies, %d kernels, %d SubRing wrappers (+%d NTT delegations), AutomorphismNTTIndex, %d Galois functions, %d RNS-scalar functions\n", len(names), len(metas), len(wmetas), len(delegates), ng, ns)
 }
 
 func must(err error) {
